@@ -3,7 +3,7 @@ import UF.Spec.Match
 import UF.Proofs.MergeSorted
 import UF.Proofs.MatchSpec
 import UF.Proofs.ParseTotal
-namespace UF
+namespace UF.E
 open Bytes
 
 /-- two parser results agree up to R on success and exactly on failure -/
@@ -497,4 +497,4 @@ theorem loadClients_items_perm (ext : Ext) {l l' : List Bytes} (h : l.Perm l') :
     · exact ⟨ClientsPerm.refl _, ClientsPerm.refl _⟩
     · exact ⟨ClientsPerm.refl _, addClient_comm ext _ _ _⟩
 
-end UF
+end UF.E
